@@ -56,6 +56,9 @@ class World:
         if f == "chainz":
             z = rel.engine.make_doomed_relation(build.tags(("a", "b")), ["statically empty"], name="Z")
             return rel.chain(z)
+        if f == "joini":
+            ident = rel.engine.make_join_identity_relation(name="I")
+            return rel.join(ident, build.pred({"p": "cmp", "f": "eq", "l": {"x": "ref", "c": "a"}, "r": {"x": "lit", "v": 1}}))
         if f == "chainzl":
             z = rel.engine.make_doomed_relation(build.tags(("a", "b")), ["statically empty"], name="Z")
             return z.chain(rel)
